@@ -107,6 +107,9 @@ def classes_in(d, acc=None):
             classes_in(x, acc)
     else:
         acc.add(d[0])
+        if d[0] in ("PList", "PTuple", "PSet", "PDict"):
+            for x in d[1]:
+                classes_in(x, acc)
     return acc
 
 
@@ -639,3 +642,109 @@ def collect_symbols(d, acc):
     elif d[0] in ("PList", "PTuple", "PSet", "PDict"):
         for x in d[1]:
             collect_symbols(x, acc)
+
+
+# ------------------------------------------------------------------ C29: rebuilding values, canonical comparison
+def undump(d):
+    """the value a dump describes (inverse of dump on values; tuples may arrive as lists after JSON)"""
+    from hy import models as M
+    k = d[0]
+    if k == "VSym":
+        try:
+            return M.Symbol(d[1])
+        except ValueError:
+            return M.Symbol(d[1], from_parser=True)
+    if k == "VKw":
+        return M.Keyword(d[1], from_parser=True)
+    if k == "VInt":
+        return M.Integer(d[1])
+    if k == "VFloat":
+        return M.Float(from_bits(d[1]))
+    if k == "VCpx":
+        x = M.Complex(complex(from_bits(d[1]), 0.0))
+        # rebuild the exact bits of the imaginary part (Complex(...) itself adds 0 + imag)
+        return complex.__new__(M.Complex, from_bits(d[1]), from_bits(d[2]))
+    if k == "VStr":
+        return M.String(d[1], brackets=d[2])
+    if k == "VBytes":
+        return M.Bytes(bytes(d[1]))
+    if k == "VSeq":
+        kind = d[1]
+        items = [undump(x) for x in d[2]]
+        if kind[0] == "KFString":
+            return M.FString(items, brackets=kind[1], is_tstring=kind[2])
+        if kind[0] == "KFComp":
+            return M.FComponent(items, conversion=kind[1], expression=kind[2], is_tstring=kind[3])
+        cls = {v: k2 for k2, v in KINDS.items()}[kind[0]]
+        return getattr(M, cls)(items)
+    if k == "PInt":
+        return d[1]
+    if k == "PFloat":
+        return from_bits(d[1])
+    if k == "PCpx":
+        return complex(from_bits(d[1]), from_bits(d[2]))
+    if k == "PStr":
+        return d[1]
+    if k == "PBytes":
+        return bytes(d[1])
+    if k == "PBool":
+        return bool(d[1])
+    if k == "PNone":
+        return None
+    if k == "PList":
+        return [undump(x) for x in d[1]]
+    if k == "PTuple":
+        return tuple(undump(x) for x in d[1])
+    if k == "PSet":
+        return {undump(x) for x in d[1]}
+    if k == "PDict":
+        it = [undump(x) for x in d[1]]
+        return {it[i]: it[i + 1] for i in range(0, len(it), 2)}
+    if k == "POpaque":
+        return Opaque(d[1])
+    raise ValueError("cannot rebuild %r" % (d,))
+
+
+def tup(d):
+    """lists (after JSON) back to tuples"""
+    return tuple(tup(x) for x in d) if isinstance(d, (list, tuple)) else d
+
+
+def canon(d, set_models=False):
+    """dump with sets and dicts put in a canonical order (Python's own equality ignores their order);
+    set_models: also order the children of Set models (the promotion of a set lists its members in hash order,
+    which differs from one interpreter to the next)"""
+    k = d[0]
+    if k == "VSeq":
+        ch = tuple(canon(x, set_models) for x in d[2])
+        if set_models and d[1][0] == "KSet":
+            ch = tuple(sorted(ch, key=repr))
+        return ("VSeq", tuple(d[1]), ch)
+    if k in ("PList", "PTuple"):
+        return (k, tuple(canon(x, set_models) for x in d[1]))
+    if k == "PSet":
+        return (k, tuple(sorted((canon(x, set_models) for x in d[1]), key=repr)))
+    if k == "PDict":
+        it = [canon(x, set_models) for x in d[1]]
+        pairs = sorted(((it[i], it[i + 1]) for i in range(0, len(it), 2)), key=lambda p: repr(p[0]))
+        return (k, tuple(x for p in pairs for x in p))
+    return d
+
+
+def add0_bits(b):
+    e, mant = (b >> 52) & 2047, b & ((1 << 52) - 1)
+    if b == 1 << 63:
+        return 0
+    if e == 2047 and mant != 0 and mant < (1 << 51):
+        return b | (1 << 51)
+    return b
+
+
+def cnorm(d):
+    """what comes back for a plain value: Complex(x) makes the imaginary part 0 + im"""
+    k = d[0]
+    if k == "PCpx":
+        return (k, d[1], add0_bits(d[2]))
+    if k in ("PList", "PTuple", "PSet", "PDict"):
+        return (k, tuple(cnorm(x) for x in d[1]))
+    return d
